@@ -82,7 +82,7 @@ def plan(tier, seed):
     els = sorted(misc.ELEMENTS)
     scopes.append({"name": "every-element", "table": "default and mix",
                    "desc": "[C] sym [C] and sym alone for every element x bond prefix ('', =, #, /, \\) x isotope ('', 13) x "
-                           "chirality ('', @, @@) x H ('', H1, H3) x charge ('', +1, -1, +2): symbol classification must not "
+                           "chirality ('', @, @@) x H ('', H1, H3) x charge ('', +1, -1, +2, +10, -20): symbol classification must not "
                            "depend on how an element is spelled"})
     for k in range(0, len(els), 8):
         tasks.append(("every-element", ("elements", els[k:k + 8])))
@@ -176,7 +176,7 @@ def run(task):
             table = use_table(tn)
             for el in arg[1]:
                 for b, iso, chir, h, chg in itertools.product(["", "=", "#", "/", "\\"], ["", "13"], ["", "@", "@@"],
-                                                              ["", "H1", "H3"], ["", "+1", "-1", "+2"]):
+                                                              ["", "H1", "H3"], ["", "+1", "-1", "+2", "+10", "-20"]):
                     sym = "[%s%s%s%s%s%s]" % (b, iso, el, chir, h, chg)
                     check_tokens((sym,), table, trace, r)
                     check_tokens(("[C]", sym, "[C]"), table, trace, r)
